@@ -316,7 +316,21 @@ static int item_index(const parsec_hash_table_item_t *q)
     for (int i = 0; i < NI; i++) if (q == &P[i]->hi) return i;
     return -1;
 }
-static int present(int i) { return vin.gen[i] >= 0; }
+/* shape fixing (one cbmc process per shape): -DLINKMASK=m = old generation g is still on the `next` chain iff bit g of m
+ * (a symbolic chain makes every generation header a pointer ite and SSA conversion does not finish with 3 generations);
+ * -DGENS={g0,g1,..} = generation of each pool item (-1 absent); keys, hashes, bucket function, hint stay symbolic */
+#ifdef LINKMASK
+#define LINKED(g) (((LINKMASK) >> (g)) & 1)
+#else
+#define LINKED(g) vin.linked[g]
+#endif
+#ifdef GENS
+static const int8_t fixgen[NI] = GENS;
+#define GEN(i) fixgen[i]
+#else
+#define GEN(i) vin.gen[i]
+#endif
+static int present(int i) { return GEN(i) >= 0; }
 
 static void build_state(void)
 {
@@ -350,6 +364,7 @@ static void build_state(void)
             if (vin.key[i] == vin.key[j]) V_ASSUME(vin.h[i] == vin.h[j]);   /* key_hash is a function of the key */
         }
     for (int i = 0; i < NI; i++) {
+        V_ASSUME(vin.gen[i] == GEN(i));
         V_ASSUME(vin.gen[i] >= -1 && vin.gen[i] < NG);
         P[i]->hi.key = vin.key[i];
         P[i]->before = 0xb0 + i; P[i]->after = 0xa0 + i;
@@ -358,7 +373,7 @@ static void build_state(void)
             P[i]->hi.next_item = vin.junk_next[i] ? &P[(i + 1) % NI]->hi : NULL;
         }
         for (int g = 0; g < NG; g++)
-            if (vin.gen[i] == g) {
+            if (GEN(i) == g) {
                 uint64_t b = ghost_rehash(vin.h[i], NBITS(g));
                 P[i]->hi.hash64 = vin.h[i];
                 P[i]->hi.next_item = BK[g][b].first_item;
@@ -373,7 +388,8 @@ static void build_state(void)
         int ne = 0;
         for (unsigned b = 0; b < NBK(g); b++) if (BK[g][b].first_item != NULL) ne++;
         heads[g].used_buckets = ne;
-        if (vin.linked[g]) { prev->next = &heads[g]; prev = &heads[g]; }
+        V_ASSUME(!vin.linked[g] == !LINKED(g));
+        if (LINKED(g)) { prev->next = &heads[g]; prev = &heads[g]; }
         else {
             V_ASSUME(ne == 0);                               /* only an emptied generation is ever unlinked */
             heads[g].next = (vin.stale_next[g] && g > 0) ? &heads[g - 1] : NULL;
